@@ -3,7 +3,9 @@ package harness
 import (
 	"bytes"
 	"context"
+	"errors"
 	"fmt"
+	"log"
 	"log/syslog"
 	"net"
 	"os"
@@ -26,7 +28,31 @@ type recSink struct {
 	mu    sync.Mutex
 	log   func() *transport.Log
 	lines []sinkLine
+	// failEvery > 1 (Write only): every failEvery-th write reports an error after the line has been
+	// taken (the first leg of a tee wrote it, a later one failed)
+	failEvery int
+	writes    int
 }
+
+// Write makes the sink usable as the io.Writer behind a log.Logger (which is what SetLogSinkDefault
+// builds over a file).
+func (s *recSink) Write(p []byte) (int, error) {
+	s.Printf("%s", strings.TrimSuffix(string(p), "\n"))
+	s.mu.Lock()
+	s.writes++
+	fail := s.failEvery > 1 && s.writes%s.failEvery == 0
+	odd := s.writes%2 == 1
+	s.mu.Unlock()
+	if fail {
+		if odd {
+			return 0, errSinkLeg
+		}
+		return len(p), errSinkLeg
+	}
+	return len(p), nil
+}
+
+var errSinkLeg = errors.New("forwarding leg of the accounting log is down")
 
 type sinkLine struct {
 	Stamp int64
@@ -166,6 +192,10 @@ type refOpts struct {
 	// realLog > 0: every log call is also passed to the reference logger (cmds/server/log) at this level,
 	// writing to refEnv.realOut
 	realLog int
+	// sinkLogger > 0: the accounting sink is a log.Logger over the recording sink (as SetLogSinkDefault
+	// builds one over a file) instead of the recording sink itself; > 1: every sinkLogger-th write of that
+	// logger reports an error after the line was taken
+	sinkLogger int
 }
 
 func startRef(cfg cfggen.Config, o refOpts) (*refEnv, error) {
@@ -187,6 +217,10 @@ func startRefDoc(doc []byte, o refOpts) (*refEnv, error) {
 		lg = refsrv.NopLogger{}
 	}
 	ro := refsrv.Options{Logger: lg, Sink: e.sink, Keychain: o.keychain, Format: o.format}
+	if o.sinkLogger > 0 {
+		e.sink.failEvery = o.sinkLogger
+		ro.Sink = log.New(e.sink, "", 0)
+	}
 	if len(o.faultyKeys) > 0 {
 		fk := faultyKeychain{}
 		for _, k := range o.faultyKeys {
